@@ -2,7 +2,7 @@
 import vcheck
 
 PID = "C10"
-MODULES = ["BeffVerif.Props.C10"]
+MODULES = ["BeffVerif.Props.C10", "BeffVerif.Props.C14"]
 AUDIT = "BeffVerif/Audit/C10.lean"
 TAGS = ("c10.",)
 
